@@ -26,6 +26,7 @@ Definition nonzero (l : list Z) : list (Z * Z) := nonzero_from 0 l.
 
 (* tolerances *)
 Definition tol_ed : Q := pow2 (-36).       (* energy density, relative *)
+Definition tol_tiny : Q := pow2 (-1000).   (* absolute slack for values in the subnormal range (exp underflow) *)
 Definition tol_arg : Q := pow2 (-40).      (* exp / erf argument computed in doubles vs exactly, relative *)
 Definition tol_geo : Q := pow2 (-48).      (* segment offsets / heights, wavelengths, delta: one or two roundings *)
 Definition tol_pow : Q := pow2 (-34).      (* Gaussian bin power, absolute (erf argument error up to 2^-36) *)
@@ -52,7 +53,7 @@ Definition check_probe (pi s2pi3 : Q) (f : edfun) (p : probe) : bool :=
   let '(x, y, z) := pt in
   close tol_arg (pow2 (-70)) (exp_arg pi f x y z) arg &&
   match ed_eval pi s2pi3 (fun _ => ev) f x y z with
-  | Some v => close tol_ed 0 v impl
+  | Some v => close tol_ed tol_tiny v impl
   | None => false
   end.
 
@@ -99,25 +100,13 @@ Fixpoint erf_lookup_red (tbl : list (Q * Q)) (a : Q) : Q :=
   end.
 Definition erf_lookup (tbl : list (Q * Q)) (a : Q) : Q := erf_lookup_red tbl (Qred a).
 
-(* ConstantSpectrum: the outermost bin edges coincide with min / max in exact arithmetic, so the
-   comparison "min <= edge <= max" has margin zero: the implementation's rounded edge may fall on
-   either side.  The first / last bin may therefore miss one half of 1/(max-min) per outer edge;
-   such cases are counted by the harness and decided by the search on the implementation. *)
-Definition const_bin_ok (w : Q) (n : nat) (i : nat) (m impl : Q) : bool :=
-  let half := (1 # 2) / w in
-  let lo_amb := Nat.eqb i 0 in
-  let hi_amb := Nat.eqb (S i) n in
-  close tol_geo 0 m impl
-  || (lo_amb && close tol_geo 0 (m - half) impl)
-  || (hi_amb && close tol_geo 0 (m - half) impl)
-  || (lo_amb && hi_amb && close tol_geo 0 (m - 2 * half) impl).
-
-Fixpoint check_psd_const (w : Q) (n i : nat) (m impl : list Q) : bool :=
-  match m, impl with
-  | [], [] => true
-  | a :: t1, b :: t2 => const_bin_ok w n i a b && check_psd_const w n (S i) t1 t2
-  | _, _ => false
-  end.
+(* ConstantSpectrum: bin power = overlap / (max - min).  The implementation accumulates the bin edges in
+   doubles (error about one ulp of the wavelength per edge); where an outer bin is clipped to [min, max]
+   this enters the power as ulp(wavelength) / (max - min).  Tolerance on the power: 2^-46 * max / (max - min)
+   (1.4e-11 for a 1 nm range at 1000 nm); a halved bin is off by 1/(2 bins). *)
+Definition check_psd_const (s : sstate) (impl : list Q) : bool :=
+  let tol := pow2 (-46) * (s_max s / (s_max s - s_min s)) in
+  forallb2 (fun m i => close 0 tol (m * s_delta s) (i * s_delta s)) (s_psd s) impl.
 
 Definition seval := (Q * Q * Q * Q)%type.      (* x, exp argument (double), exp value, spectrum(x) *)
 
@@ -127,7 +116,7 @@ Definition check_seval (erf : Q -> Q) (sqrt2 sqrt2pi : Q) (s : sstate) (e : seva
   | SConst => Qeq_bool (s_eval (fun _ => ev) s x) impl
               || close tol_geo 0 (s_eval (fun _ => ev) s x) impl
   | SGauss => close tol_arg (pow2 (-70)) (-(1 # 2) * sq ((x - s_mean s) * s_recip s)) arg
-              && close tol_ed 0 (s_eval (fun _ => ev) s x) impl
+              && close tol_ed tol_tiny (s_eval (fun _ => ev) s x) impl
   end.
 
 (* rep = [min_wavelength; max_wavelength; get_min_wavelenth(); get_max_wavelenth(); mean; stddev]
@@ -137,12 +126,11 @@ Definition check_spectrum (pi sqrt2 sqrt2pi : Q) (k : skind) (a : sargs) (ops : 
     (ctor_ok : bool) (rs : list Z) (rep : list Q) (zrep : list Z) (deltas : list Q)
     (tbl : list (Q * Q)) (wl psd : list Q) (evals : list seval) : Z :=
   let erf := erf_lookup tbl in
-  let ex := fun _ : Q => 0 in
-  match sconstruct erf ex sqrt2 sqrt2pi k a with
+  match sconstruct erf sqrt2 sqrt2pi k a with
   | None => if ctor_ok then 1%Z else 0%Z
   | Some s0 =>
       if negb ctor_ok then 1%Z else
-      let (s, mr) := srun erf ex sqrt2 sqrt2pi s0 ops in
+      let (s, mr) := srun erf sqrt2 sqrt2pi s0 ops in
       let mrep := [s_min s; s_max s; get_min_wavelenth s; get_max_wavelenth s] ++
                   match k with SGauss => [s_mean s; s_std s] | SConst => [] end in
       first_bad [
@@ -153,7 +141,7 @@ Definition check_spectrum (pi sqrt2 sqrt2pi : Q) (k : skind) (a : sargs) (ops : 
         (6%Z, forallb2 (close tol_geo 0) [s_delta s; get_delta_wavelength s] deltas);
         (7%Z, forallb2 (close tol_geo 0) (s_wl s) wl);
         (8%Z, match k with
-              | SConst => check_psd_const (s_max s - s_min s) (length (s_psd s)) 0 (s_psd s) psd
+              | SConst => check_psd_const s psd
               | SGauss => forallb2 (fun m i => close 0 tol_pow (m * s_delta s) (i * s_delta s)) (s_psd s) psd
               end);
         (9%Z, forallb (check_seval erf sqrt2 sqrt2pi s) evals) ]
